@@ -128,15 +128,31 @@ class Ctx:
         self.broken.append(dict(kind=kind, name=name, detail=detail[-3000:]))
 
     # -- translators / build ------------------------------------------------------------------
-    def regen(self):
-        """Regenerate coq/Gen/*.v from /repo's working tree (fail-closed translators)."""
+    def regen(self, targets=None):
+        """Regenerate coq/Gen/*.v from /repo's working tree (fail-closed translators).  A failing translator breaks
+        this property only when its generated file is in the dependency closure of the property's targets."""
         from translate import regen_all
-        for name, err in regen_all.run().items():
-            if err:
+        if getattr(self, '_regen_done', False):
+            return
+        self._regen_done = True
+        res = regen_all.run()
+        need = None
+        if targets:
+            deps = makefile_deps()
+            if deps:
+                need, todo = set(), [t[:-1] if t.endswith('.vo') else t for t in targets]
+                while todo:
+                    f = todo.pop()
+                    if f not in need:
+                        need.add(f)
+                        todo += deps.get(f, [])
+        for name, err in res.items():
+            if err and (need is None or ('Gen/' + name) in need):
                 self.broke('translator', name, err)
 
     def build(self, targets, timeout=1500):
-        """make the given .vo targets (full .vo build).  Returns True when all built."""
+        """make the given .vo targets (full .vo build).  Returns True when all built.  Gen/ is regenerated first."""
+        self.regen(targets)
         ok, log = coq_make(targets, timeout)
         self.checker_cmd = f'make -C {COQ} -j{NPROC} ' + ' '.join(targets) + ' (coqc 8.16.1, full .vo)'
         if not ok:
